@@ -63,9 +63,19 @@ def eval (st : KSt) (fn : String) (args : List String) (impl : String) : Option 
       | _ => none
     let (st', srrs) := report st items
     let want := if srrs.isEmpty then "-" else String.intercalate "|" (sortStr srrs)
+    -- the same with the trigger words blanked: when only they differ, the data plane's cause (Reporting Triggers layout) was
+    -- not carried into the Usage Report Trigger by name (C19)
+    let blank (x : String) : String :=
+      String.intercalate "|" ((splitOn1 x '|').map fun srr =>
+        match splitOn1 srr '/' with
+        | [sd, reps] => sd ++ "/" ++ String.intercalate "+" ((splitOn1 reps '+').map fun r =>
+            String.intercalate "." ((splitOn1 r '.').take 3))
+        | _ => srr)
     pure (st', { model := want,
                  propFails := if impl == want then [] else
-                   [s!"C10 kernel usage reports: the Session Report Requests at the SMF are [{impl}], the reports of this notification call for [{want}] (one request per owning session, its own reports, values and triggers intact, UR-SEQN in sequence)"] })
+                   [s!"C10 kernel usage reports: the Session Report Requests at the SMF are [{impl}], the reports of this notification call for [{want}] (one request per owning session, its own reports, values and triggers intact, UR-SEQN in sequence)"] ++
+                   (if blank impl == blank want then
+                      [s!"C19 the cause the data plane reported (Reporting Triggers bit layout) must reach the control plane as the Usage Report Trigger flag of the same name: the Session Report Requests carry [{impl}], by name they carry [{want}]"] else []) })
   | _, _ => none
 
 end UpfVerif.Driver.KrepD
